@@ -204,6 +204,9 @@ class ProgGen:
             return ['num', r.choice(['0.5', '1.9', '2.0'])]
         if x < 0.9:
             return self.expr('num', min(d, 1))
+        if x < 0.92:
+            # a position thousands of digits long: out of range like any other (also when it comes to saying so)
+            return r.choice([['bin', '**', ['num', '10'], ['num', '5000']], ['bin', '-', ['num', '0'], ['bin', '**', ['num', '10'], ['num', '4400']]]])
         return ['num', str(r.randint(4, 9))]
 
     def dict_key(self, d):
